@@ -985,14 +985,18 @@ func histories(rng *lib.Rng, res *lib.Result, thorough bool) []*HSpec {
 				// the contained String / Integer are singletons: the named type meets the same actual OBJECT at every place
 				A: []*XSpec{xl(S), xl(I), acts[3], xl(lat.Arr(S, 0, lat.Max)), xl(lat.Arr(I, 0, lat.Max)), xl(lat.Tup(S, I)), xl(lat.Tup(I, S)),
 					xl(lat.Struct(lat.Member{"e", 0, S})), xl(lat.Struct(lat.Member{"e", 0, I})), xl(lat.Hsh(S, I, 0, lat.Max)), xl(lat.Hsh(S, S, 0, lat.Max)),
-					xl(lat.Struct(lat.Member{"d", 0, I}, lat.Member{"e", 0, S})), xl(lat.Struct(lat.Member{"d", 0, S}, lat.Member{"e", 0, I}))}}
+					xl(lat.Struct(lat.Member{"d", 0, I}, lat.Member{"e", 0, S})), xl(lat.Struct(lat.Member{"d", 0, S}, lat.Member{"e", 0, I})),
+					// an Array of a size that no base accepts, below a Struct member / in a Tuple slot / at the top: against the
+					// Variant-of-sized-Arrays base the variants merge into ONE size mismatch, which a named type reports as ITS type
+					// mismatch - also when the named type stands below a constructor (Model/DescribeNested.v)
+					xl(lat.Struct(lat.Member{"e", 0, lat.Arr(I, 3, 3)})), xl(lat.Tup(lat.Arr(I, 3, 3))), xl(lat.Arr(I, 3, 3))}}
 		}
 		if _, crash := lat.Guarded(func() bool { return w().build() != nil }); crash != "" {
 			res.Count("hist.recipe-rejected")
 			continue
 		}
 		// every place in turn, one subject (or two in alternation): only the place of the named type differs
-		places := [][2]int{{0, 0}, {0, 1}, {1, 7}, {1, 8}, {2, 3}, {2, 4}, {3, 5}, {3, 6}, {4, 11}, {4, 12}, {5, 9}, {5, 10}, {6, 0}, {6, 1}, {0, 0}, {1, 7}}
+		places := [][2]int{{0, 0}, {0, 1}, {1, 7}, {1, 8}, {2, 3}, {2, 4}, {3, 5}, {3, 6}, {4, 11}, {4, 12}, {5, 9}, {5, 10}, {6, 0}, {6, 1}, {0, 0}, {1, 7}, {1, 13}, {2, 14}, {0, 15}}
 		for i := 0; i < 6; i++ {
 			h := &HSpec{Fam: "shared-place", World: w()}
 			s1, s2, _ := two(idx)
